@@ -5,8 +5,6 @@ type nat =
 | O
 | S of nat
 
-val option_map : ('a1 -> 'a2) -> 'a1 option -> 'a2 option
-
 val fst : ('a1 * 'a2) -> 'a1
 
 val snd : ('a1 * 'a2) -> 'a2
@@ -42,9 +40,21 @@ type z =
 
 module Nat :
  sig
+  val add : nat -> nat -> nat
+
   val eqb : nat -> nat -> bool
 
   val leb : nat -> nat -> bool
+
+  val ltb : nat -> nat -> bool
+
+  val max : nat -> nat -> nat
+
+  val min : nat -> nat -> nat
+
+  val divmod : nat -> nat -> nat -> nat -> nat * nat
+
+  val div : nat -> nat -> nat
  end
 
 module Pos :
@@ -136,6 +146,10 @@ module Z :
 
   val eqb : z -> z -> bool
 
+  val max : z -> z -> z
+
+  val min : z -> z -> z
+
   val to_nat : z -> nat
 
   val of_nat : nat -> z
@@ -155,21 +169,19 @@ module Z :
   val even : z -> bool
  end
 
-val hd : 'a1 -> 'a1 list -> 'a1
-
-val tl : 'a1 list -> 'a1 list
-
 val nth : nat -> 'a1 list -> 'a1 -> 'a1
+
+val nth_error : 'a1 list -> nat -> 'a1 option
 
 val last : 'a1 list -> 'a1 -> 'a1
 
-val rev : 'a1 list -> 'a1 list
+val removelast : 'a1 list -> 'a1 list
 
 val concat : 'a1 list list -> 'a1 list
 
 val map : ('a1 -> 'a2) -> 'a1 list -> 'a2 list
 
-val flat_map : ('a1 -> 'a2 list) -> 'a1 list -> 'a2 list
+val fold_left : ('a1 -> 'a2 -> 'a1) -> 'a2 list -> 'a1 -> 'a1
 
 val fold_right : ('a2 -> 'a1 -> 'a1) -> 'a1 -> 'a2 list -> 'a1
 
@@ -177,11 +189,17 @@ val existsb : ('a1 -> bool) -> 'a1 list -> bool
 
 val forallb : ('a1 -> bool) -> 'a1 list -> bool
 
+val filter : ('a1 -> bool) -> 'a1 list -> 'a1 list
+
 val find : ('a1 -> bool) -> 'a1 list -> 'a1 option
 
-val list_prod : 'a1 list -> 'a2 list -> ('a1 * 'a2) list
+val combine : 'a1 list -> 'a2 list -> ('a1 * 'a2) list
+
+val firstn : nat -> 'a1 list -> 'a1 list
 
 val skipn : nat -> 'a1 list -> 'a1 list
+
+val seq : nat -> nat -> nat list
 
 val repeat : 'a1 -> nat -> 'a1 list
 
@@ -201,12 +219,12 @@ val sx_LLZ : sx -> z list list option
 
 val sx_nat : sx -> nat option
 
+val sx_Lnat : sx -> nat list option
+
 val sx_bool : sx -> bool option
 
 val sx_pair :
   (sx -> 'a1 option) -> (sx -> 'a2 option) -> sx -> ('a1 * 'a2) option
-
-val of_Z : z -> sx
 
 val of_nat0 : nat -> sx
 
@@ -215,6 +233,10 @@ val of_bool : bool -> sx
 val of_list : ('a1 -> sx) -> 'a1 list -> sx
 
 val of_LZ : z list -> sx
+
+val of_LLZ : z list list -> sx
+
+val of_Lnat : nat list -> sx
 
 val of_pair : ('a1 -> sx) -> ('a2 -> sx) -> ('a1 * 'a2) -> sx
 
@@ -321,137 +343,260 @@ val run_choose : sx -> sx
 
 val run_round : sx -> sx
 
-val zinsert : z -> z list -> z list
+type err =
+| EIndex
+| EReject
+| EValue
+| EFuel
+| EWorker
 
-val zsort : z list -> z list
+val err_code : err -> z
 
-val zmem : z -> z list -> bool
+type 'a res =
+| Ok of 'a
+| Err of err
 
-val zassoc : z -> (z * 'a1) list -> 'a1 option
+val bind : 'a1 res -> ('a1 -> 'a2 res) -> 'a2 res
 
-val znodup_b : z list -> bool
+val res_map : ('a1 -> 'a2 res) -> 'a1 list -> 'a2 list res
 
-type node = z
+val slice : 'a1 list -> nat -> nat -> 'a1 list
 
-type level = (node * z list) list
+val upd : 'a1 list -> nat -> 'a1 -> 'a1 list
 
-type tree = level list
+val cumsum_from : nat -> nat list -> nat list
 
-val nodes : level -> node list
+val sum_list : nat list -> nat
 
-val children_of : level -> node -> z list
+val ins_by : ('a1 -> nat) -> 'a1 -> 'a1 list -> 'a1 list
 
-val is_nil0 : 'a1 list -> bool
+val sort_by : ('a1 -> nat) -> 'a1 list -> 'a1 list
 
-val all_have_parent : level -> level -> bool
+val argsort : nat list -> nat list
 
-val scan_children :
-  level -> node -> z list -> (z * z) list -> (z * z) list option
+val index_of : nat -> nat list -> nat option
 
-val scan_parents : level -> level -> (z * z) list -> (z * z) list option
+val dedup_sorted : nat list -> nat list
 
-val validate_pair : level -> level -> bool
+val unique : nat list -> nat list
 
-val validate_pairs : tree -> bool
+val range_chunks_from : nat -> nat -> nat -> nat -> (nat * nat) list
 
-val leaf_level : tree -> level
+val range_chunks : nat -> nat -> (nat * nat) list
 
-val leaf_rows : tree -> z list
+val iter_chunks : nat -> nat -> nat -> nat -> (nat * nat) list res
 
-val validate0 : tree -> bool
+val row_chunks : nat -> nat -> (nat * nat) list res
 
-val parent_of : level -> node -> node option
+type comp = { ptr : nat list; idx : nat list; dat : z list }
 
-val ancestors : tree -> nat -> node -> (nat * node) list
+type dense = z list list
 
-val all_parents_from : nat -> tree -> (nat * node) list
+val load_sparse : nat -> nat -> comp -> comp res
 
-val all_parents : tree -> (nat * node) option list
+val set_row : z list -> nat list -> z list -> z list res
 
-val leaves_from : level list -> node -> node list
+val dense_rows : nat -> nat list -> nat list -> z list -> nat -> dense res
 
-val as_leaves : tree -> (node * node list) list list
+val csr_to_dense : comp -> nat -> nat -> dense res
 
-val combos2 : 'a1 list -> ('a1 * 'a1) list
+val load_csr : nat -> nat -> nat -> comp -> dense res
 
-val order_pair : (z * z) -> z * z
+val iterate_csr : comp -> nat -> nat -> nat -> ((nat * nat) * dense) list res
 
-val leaf_pairs : tree -> (nat * node) option -> (node * node) list
+val iterate_dense : dense -> nat -> nat -> ((nat * nat) * dense) list res
 
-type 'a tres =
-| TOk of 'a
-| TErr of z
+val merge_ranges_from : nat -> nat -> nat list -> (nat * nat) list
 
-val e_FLAT : z
+val merge_index_list : nat list -> (nat * nat) list res
 
-val e_NOLEVEL : z
+val merge_from : nat -> comp list -> nat list * (nat list * z list)
 
-val e_LEAF : z
+val merge_csr : comp list -> comp res
 
-val e_INVALID : z
+val unsort_from :
+  nat list -> nat list -> comp -> nat -> nat -> (nat list * (nat list * z
+  list)) res
 
-val remove_nth : nat -> 'a1 list -> 'a1 list
+val load_disjoint_csr : nat list -> comp -> comp res
 
-val replace_nth : nat -> 'a1 -> 'a1 list -> 'a1 list
+val csr_get_batch : nat list -> nat -> comp -> dense res
 
-val mk_tree : tree -> tree tres
+val strictly_increasing : nat list -> bool
 
-val drop_level_gen : tree -> nat -> bool -> tree tres
+val dense_get_batch : nat list -> nat -> dense -> dense res
 
-val drop_level : tree -> nat -> tree tres
+val row_nonzero : z list -> (nat * z) list
 
-val drop_leaf_level : tree -> tree tres
+val csr_of_dense : dense -> comp
 
-val flatten : tree -> tree tres
+val spans_from : nat -> nat list -> nat list -> nat list res
 
-val drop_cells : tree -> tree
+val place_ptr : nat -> nat list -> nat -> nat list res
 
-val add_edge : level -> z -> z -> bool -> level
+val precompute_indptr : nat list -> nat list -> nat list res
 
-val add_record : tree -> z list -> z -> tree
+val copy_rows : comp -> nat list -> (nat list * z list) res
 
-val tree_of_records : nat -> z list list -> z -> tree -> tree
+val shuffle_rows : comp -> nat list -> comp res
 
-val get_taxonomy_tree : nat -> z list list -> tree tres
+val subset_columns : comp -> nat list -> comp res
 
-val set_eqb : z list -> z list -> bool
+val chunk_ok : nat -> nat -> bool
 
-val is_equal_to : tree -> tree -> bool
+val amalgamate_csr : comp list -> nat -> comp res
 
-val sx_level : sx -> level option
+val amalgamate_dense : dense list -> dense
 
-val sx_tree : sx -> tree option
+val copy_array : 'a1 list -> nat option -> 'a1 list res
 
-val of_level : level -> sx
+val copy_tiles : dense -> (nat * nat) list -> (nat * nat) list -> dense
 
-val of_tree : tree -> sx
+val copy_dense : dense -> nat -> nat -> (nat * nat) option -> dense res
 
-val sx_parent : sx -> (nat * node) option option
+val slices_for_copy : nat list -> nat -> (nat * nat) list list
 
-val of_tres : ('a1 -> sx) -> 'a1 tres -> sx
+val copy_h5_1d : 'a1 list -> nat -> 'a1 list
 
-val of_pairsZ : (z * z) list -> sx
+val copy_h5_2d : dense -> nat -> nat -> nat -> dense
 
-val run_validate0 : sx -> sx
+val of_res : ('a1 -> sx) -> 'a1 res -> sx
 
-val run_as_leaves : sx -> sx
+val of_comp : comp -> sx
 
-val run_leaf_pairs : sx -> sx
+val of_dense : dense -> sx
 
-val run_drop_level : sx -> sx
+val of_ranges : (nat * nat) list -> sx
 
-val run_flatten : sx -> sx
+val of_blocks : ((nat * nat) * dense) list -> sx
 
-val run_drop_leaf : sx -> sx
+val sx_comp : sx -> comp option
 
-val run_ancestors : sx -> sx
+val sx_optnat : sx -> nat option option
 
-val run_from_records : sx -> sx
+val run_iter_csr : sx -> sx
 
-val run_all_parents : sx -> sx
+val run_iter_dense : sx -> sx
 
-val run_drop_cells : sx -> sx
+val run_get_batch_csr : sx -> sx
 
-val run_is_equal : sx -> sx
+val run_get_batch_dense : sx -> sx
+
+val run_merge_index_list : sx -> sx
+
+val run_load_disjoint : sx -> sx
+
+val run_load_csr : sx -> sx
+
+val run_merge_csr : sx -> sx
+
+val run_shuffle_rows : sx -> sx
+
+val run_subset_columns : sx -> sx
+
+val sx_source_sparse : sx -> comp res option
+
+val sx_source_dense : sx -> dense res option
+
+val res_all : 'a1 res list -> 'a1 list res
+
+val run_amalgamate_sparse : sx -> sx
+
+val run_amalgamate_dense : sx -> sx
+
+val run_copy_sparse : sx -> sx
+
+val run_copy_dense : sx -> sx
+
+val run_slices : sx -> sx
+
+val run_copy_h5_2d : sx -> sx
+
+val run_copy_h5_1d : sx -> sx
+
+val run_precompute_indptr : sx -> sx
+
+type entry = { e_minor : nat; e_major : nat; e_val : z }
+
+val major_of : nat list -> nat -> nat
+
+val all_entries : comp -> bool -> entry list
+
+val in_slice : nat -> nat -> entry -> bool
+
+val shift_minor : nat -> entry -> entry
+
+val apply_slice : (nat * nat) option -> entry list -> entry list
+
+val count_of : nat -> nat list -> nat
+
+val uniq_in : nat -> nat -> nat list -> nat list
+
+val count_chunk :
+  (nat * nat) option -> (nat list * nat) -> entry list -> nat list * nat
+
+val chunks_of : 'a1 list -> nat -> 'a1 list list
+
+val calc_indptr :
+  entry list -> nat -> (nat * nat) option -> nat -> nat list * nat
+
+val next_block : nat list -> nat -> nat -> nat option
+
+val put : 'a1 list -> nat -> 'a1 list -> 'a1 list
+
+type bstate = { b_next : nat list; b_idx : nat list; b_dat : z list;
+                b_ok : bool }
+
+val fill_row : entry list -> nat -> bstate -> nat -> bstate
+
+val fill_chunk :
+  (nat * nat) option -> nat -> nat -> nat -> bstate -> entry list -> bstate
+
+val fill_block :
+  entry list list -> (nat * nat) option -> nat list -> nat list -> nat -> nat
+  -> bstate
+
+val fill_blocks :
+  nat -> entry list list -> (nat * nat) option -> nat -> nat list -> nat list
+  -> nat -> nat list -> z list -> ((nat list * z list) * (nat * nat) list) res
+
+type tresult = { t_out : comp; t_blocks : (nat * nat) list;
+                 t_count_chunks : (nat * nat) list;
+                 t_load_chunks : (nat * nat) list }
+
+val n_out_of : nat -> (nat * nat) option -> nat
+
+val transpose :
+  comp -> bool -> nat -> (nat * nat) option -> nat -> nat -> nat -> tresult
+  res
+
+val data_reads :
+  comp -> (nat * nat) option -> nat -> (nat * nat) list -> (nat * nat) list
+  list
+
+val transpose_v2 : comp -> bool -> nat -> nat -> nat -> nat -> nat -> comp res
+
+val iterate_csc :
+  comp -> nat -> nat -> nat -> nat -> nat -> nat -> ((nat * nat) * dense)
+  list res
+
+val csc_get_batch :
+  comp -> nat list -> nat -> nat -> nat -> nat -> nat -> dense res
+
+val clamp : z -> nat -> nat
+
+val sx_slice : sx -> (nat * nat) option option
+
+val of_tresult : comp -> (nat * nat) option -> nat -> tresult -> sx
+
+val run_transpose : sx -> sx
+
+val run_transpose_v2 : sx -> sx
+
+val run_calc_indptr : sx -> sx
+
+val run_iter_csc : sx -> sx
+
+val run_get_batch_csc : sx -> sx
 
 val dispatch : z -> sx -> sx
